@@ -30,6 +30,16 @@ def is_crash(s):
 
 
 class DecProp(Prop):
+    # the carried-over option bits (`run=`) are part of what C05 states; for the other properties they are not compared, so that a
+    # change to that bookkeeping alone is reported by C05 and not by every property that decodes pictures
+    compare_run = False
+
+    def compare(self, case, impl, other):
+        if not self.compare_run:
+            impl = re.sub(r" run=\d+", "", impl)
+            other = re.sub(r" run=\d+", "", other)
+        return impl == other
+
     def tally(self, hist, case, impl, model):
         for op in split_ops(impl):
             r = op.split(" ", 1)[0]
@@ -218,6 +228,7 @@ class C04(DecProp):
 @register
 class C05(DecProp):
     id = "C05"
+    compare_run = True
     thm_module = "H263V.Thm.C05"
     rule = ("P lines: (a) histories containing rejected pictures at every depth (header, macroblock header, block data, prediction) followed by valid continuations; "
             "(b) every byte split (thorough: of pictures up to 400 bytes, 300 random splits of longer ones; quick: up to 60 bytes, 40 random splits) of a valid picture across two deliveries (append part 1, decode, append part 2, decode) against the single delivery.  On the implementation's "
